@@ -169,7 +169,8 @@ def oracle_c06(sim) -> None:
                 if cls in ("requester", "rq_other") or rel:
                     ctx.probe("returned_" + (rel or cls) + "_collision")
                 else:
-                    ctx.violate("C06", "near_miss_taken", cls, f"{op.frame}: returned {got!r} (a {cls} near-miss)")
+                    ctx.violate("C06", "near_miss_taken", cls + (":W1FC9" if op.kind == "W1FC9" else ""),
+                                f"{op.frame}: returned {got!r} (a {cls} near-miss)")
         elif kind == "perr":
             first_reply = min((t for t, _ in op.reply_rx), default=None)
             first_echo = min(op.echo_rx, default=None)
